@@ -187,4 +187,35 @@ def sf_bisect_right(ev, l, x):
     return VInt(T.bisect_r(arr, n, x.z))
 
 
+def sf_match_shift(ev, s, a, b, c, m):
+    """instance of the slice-shift lemma for `match` (proved from the axioms wherever it is used)"""
+    if 'find' not in ev.eng.axiom_sets:
+        ev.eng.axiom_sets.append('find')
+    return VBool(T.match_shift_lemma(s.z, ev.eng.as_int(a)[0], ev.eng.as_int(b)[0], ev.eng.as_int(c)[0], m.z))
+
+
+def _rx(ev, v):
+    return T.Val.oval(v.z) if isinstance(v, VDyn) else v.z
+
+
+def sf_isregex(ev, v):
+    return VBool(ev.eng.is_regex(v.z)) if isinstance(v, VDyn) else VBool(isinstance(v, VRx))
+
+
+def sf_rx_pattern(ev, v):
+    return VBytes(T.rx_pattern(_rx(ev, v)))
+
+
+def sf_rx_found(ev, v, buf):
+    return VBool(T.rx_found(_rx(ev, v), buf.z))
+
+
+def sf_rx_start(ev, v, buf):
+    return VInt(T.rx_start(_rx(ev, v), buf.z))
+
+
+def sf_rx_end(ev, v, buf):
+    return VInt(T.rx_end(_rx(ev, v), buf.z))
+
+
 SPECFUNCS = {k[3:]: v for k, v in list(globals().items()) if k.startswith('sf_')}
